@@ -14,6 +14,10 @@ SPEC = {
         # accepts (C17's engine); "the dispatcher's actual groups agree" is observed by C06's engine on a real dispatcher
         {"name": "config", "pkg": "./config", "search_cases": 8000, "only": ["validate_ok_wellformed", "load_total"]},
         {"name": "group", "pkg": "./group", "search_cases": 8000, "quick_cases": 1500, "timeout_quick": 600},
+        # "every alert is always routed to at least one receiver … the dispatcher's actual groups agree": a receiver WITHOUT integrations
+        # (`- name: blackhole`) is a routing target like any other: the assembled pipeline (engine sys of C01/C04/C05, header sr= empty)
+        # has a stage for it, every flush succeeds with nothing sent, resolved alerts are deleted and the group goes away
+        {"name": "sys", "pkg": "./sys", "search_cases": 4000, "quick_cases": 250, "timeout_quick": 90, "only": ["every_selected_route_has_receiver"]},
         # "the receivers shown by the API, amtool and the dispatcher's actual groups agree": a rejected reload must not switch one of them (C17's engine)
         {"name": "reload", "pkg": "./reload", "search_cases": 4, "timeout_quick": 400, "timeout_thorough": 900, "timeout_search": 400, "only": ["failed_reload_keeps_running", "failed_reload_keeps_config"]},
         # a route's matchers hold with the one matcher semantics of C16 (fully anchored regex, missing label = empty string)
